@@ -122,6 +122,9 @@ func genInputValue(r *rand.Rand, t gen.T, depth int) ref.Value {
 // ---- directed compositions (single features cannot reach these)
 
 var c01Directed = []string{
+	// freeze reaches below values that are already immutable at the top
+	"src := immutable({limits: [1, 2], tags: {a: [1]}}); f := freeze(src); t := [is_immutable_array(f.limits), is_immutable_map(f.tags), is_immutable_array(f.tags.a)]; src.limits[0] = 9; q := [f.limits[0], src.limits[0]]",
+	"src := immutable([[1, 2], {k: [3]}]); f := freeze(src); t := [is_immutable_array(f[0]), is_immutable_map(f[1]), is_immutable_array(f[1].k)]; src[0][1] = 7; q := [f[0], src[0]]; f[0][0] = 5",
 	// inside a function every iteration of for-in has its own key and value variables, and they are new
 	// variables even where they take over the stack slot of a captured variable of a finished block
 	"run := func() { fs := []; for k, v in [7, 8, 9] { fs = append(fs, func() { return [k, v] }) }; w := []; for i := 0; i < len(fs); i++ { w = append(w, fs[i]()) }; return w }\nres := run()",
